@@ -141,6 +141,36 @@ def check(run, model, tier):
                  '' if ok else 'join() is reached without a wake-up item having been put: the thread is blocked in get() and join never returns', node=j.ast, obligation=True)
         alive = [t for t in gh.nodes if t.kind == 'test' and 'is_alive' in norm(t.ast) and guarded_by_edge(gh, j, t, 'true')]
         run.inst('ORDER.stop', sh, 'join only a live thread', bool(alive), 'join is attempted on a thread that may never have started', node=j.ast, obligation=True)
+    # ---- delivery loops end only through the shared run event
+    from props.c06 import runner_params
+    for reg, th in sorted(w.threads.items()):
+        r = th['runner']
+        flagp, qp2, rp2 = runner_params(w, reg)
+        grn = cfg_of(r)
+        run.touch(r, grn)
+        hds = [hd for hd in grn.loop_heads() if hd.kind == 'test']
+        if len(hds) != 1:
+            raise AnalysisError('%s: expected one while loop' % r.qualname)
+        hd = hds[0]
+        inner_, pol_ = strip_not(hd.ast)
+        ok = isinstance(inner_, ast.Call) and isinstance(inner_.func, ast.Attribute) and inner_.func.attr == 'is_set' and dotted(inner_.func.value) == flagp and pol_
+        run.inst('ORDER.stop', r, 'delivery loop guard reads the shared run event', ok, 'loop guard is %s' % norm(hd.ast), node=hd.ast, obligation=True)
+        body = grn.loop_body(hd)
+        exits = [n for n in grn.nodes if n.kind == 'stmt' and isinstance(n.ast, (ast.Break, ast.Return)) and any(x is n.ast for x in ast.walk(hd.stmt))]
+        for ex in exits:
+            guarded = False
+            for t in grn.nodes:
+                if t.kind != 'test' or t is hd:
+                    continue
+                i3, p3 = strip_not(t.ast)
+                if isinstance(i3, ast.Call) and isinstance(i3.func, ast.Attribute) and i3.func.attr == 'is_set' and dotted(i3.func.value) == flagp \
+                        and guarded_by_edge(grn, ex, t, 'false' if p3 else 'true'):
+                    guarded = True
+            run.inst('ORDER.stop', r, 'delivery thread leaves its loop only when the run event is clear', guarded,
+                     '' if guarded else ('the delivery thread can leave its loop at `%s` while the run event is set, i.e. depending on what it took from its queue: '
+                                         'a wake-up item left over from an earlier stop() (the thread had exited through the loop guard without consuming it) ends '
+                                         'the thread that the next start() creates, so delivery never resumes' % norm(ex.ast)), node=ex.ast, obligation=True)
+        run.inst('ORDER.stop', r, 'loop exits scanned: %d' % len(exits), True, nontrivial=True)
     # ---- ALIVE.conjunction
     ia = fab.methods.get('is_alive')
     if ia is None:
